@@ -166,7 +166,26 @@ Definition apply_op (o:op) (S:schema) : schema :=
   | OpDropTable n => kremove t_name n S
   | _ => kupdate t_name (op_table o) (apply_top o) S
   end.
-Definition apply_ops (ops:list op) (S:schema) : schema := fold_left (fun s o => apply_op o s) ops S.
+Definition apply_ops_direct (ops:list op) (S:schema) : schema := fold_left (fun s o => apply_op o s) ops S.
+
+(* The upgrade is not the operation objects but the Python text render_python_code prints for them, executed.  The text differs
+   from the objects in one place that matters here: autogenerate/render.py _render_server_default prints a Python-string server
+   default as repr of re.sub(^QUOTE|QUOTE$, empty, default) - a leading and a trailing quote character are lost (wherever a column is
+   printed: create_table, add_column, alter_column(server_default=...)). *)
+Definition strip_edge_quotes (s:list N) : list N :=
+  let s1 := match s with x :: r => if N.eqb x 39 then r else s | [] => [] end in
+  if N.eqb (last s1 0%N) 39 then removelast s1 else s1.
+Definition render_default (d:dflt) : dflt := match d with DLit s => DLit (strip_edge_quotes s) | _ => d end.
+Definition render_col (c:col) : col :=
+  mkCol (c_name c) (c_ty c) (c_null c) (c_pk c) (option_map render_default (c_default c)) (c_null_set c).
+Definition render_op (o:op) : op :=
+  match o with
+  | OpCreateTable t => OpCreateTable (mkTable (t_name t) (map render_col (t_cols t)) (t_cons t) (t_fks t) (t_uuqs t))
+  | OpAddColumn t c => OpAddColumn t (render_col c)
+  | OpAlterColumn t c en et ed mn mt md => OpAlterColumn t c en et ed mn mt (option_map (option_map render_default) md)
+  | _ => o
+  end.
+Definition apply_ops (ops:list op) (S:schema) : schema := apply_ops_direct (map render_op ops) S.
 
 (* ---------------------------------------------------------------- strings *)
 Definition ch_quote : N := 39.   (* ' *)
